@@ -559,6 +559,8 @@ struct Tr {
       case Instruction::GetElementPtr:
         return gep_expr(cast<GEPOperator>(I));
       case Instruction::Load:
+        if (auto* SEL = dyn_cast<SelectInst>(I->getOperand(0)))
+          return "(" + val(SEL->getCondition()) + " ? *" + val(SEL->getTrueValue()) + " : *" + val(SEL->getFalseValue()) + ")";
         return "(*" + A(0) + ")";
       case Instruction::Freeze:
         return A(0);
@@ -614,8 +616,31 @@ struct Tr {
       Type* E = PT->getPointerElementType();
       if (E->isSized() && !E->isIntegerTy(8) && !E->isFunctionTy())
         T = E;
+      else if (E->isIntegerTy(8) && isa<Instruction>(P)) {
+        // raw i8* (typically the result of operator new / malloc): use the largest typed view taken of it
+        uint64_t best = 0;
+        for (const User* U : P->users())
+          if (auto* BC = dyn_cast<BitCastInst>(U))
+            if (auto* BT = dyn_cast<PointerType>(BC->getType())) {
+              Type* C = BT->getPointerElementType();
+              if (C->isSized() && !C->isIntegerTy(8) && !C->isFunctionTy() && DL.getTypeAllocSize(C) > best) {
+                best   = DL.getTypeAllocSize(C);
+                viewT  = C;
+              }
+            }
+        if (best)
+          T = viewT;
+      }
     }
     return P;
+  }
+  Type* viewT = nullptr;
+  // lvalue expression for *P viewed as T
+  std::string deref_as(const Value* P, Type* T)
+  {
+    if (P->getType()->getPointerElementType() == T)
+      return "(*" + val(P) + ")";
+    return "(*(" + ty(T) + "*)" + val(P) + ")";
   }
   // zero (src empty) or copy the byte range [off, off+n) of an lvalue of type T, field by field; false if a scalar is only partly covered
   bool range_op(const std::string& dst, const std::string& src, Type* T, uint64_t off, uint64_t n, std::vector<std::string>& out)
@@ -647,7 +672,7 @@ struct Tr {
         std::string f = ".f" + std::to_string(i);
         if (!range_op(dst + f, src.empty() ? src : src + f, ST->getElementType(i), lo - fo, hi - lo, out))
           return false;
-        if (out.size() > 128)
+        if (out.size() > 512)
           return false;
       }
       return true;
@@ -661,7 +686,7 @@ struct Tr {
         std::string f = ".a[" + std::to_string(i) + "]";
         if (!range_op(dst + f, src.empty() ? src : src + f, AT->getElementType(), lo - i * es, hi - lo, out))
           return false;
-        if (out.size() > 128)
+        if (out.size() > 512)
           return false;
       }
       return true;
@@ -705,16 +730,16 @@ struct Tr {
               Type* RT2;
               const Value* B0 = resolve_base(CB->getArgOperand(0), off, RT2);
               if (CV && CV->isZero() && RT2)
-                ok = range_op("(*" + val(B0) + ")", "", RT2, off, n, st);
+                ok = range_op(deref_as(B0, RT2), "", RT2, off, n, st);
             } else {
               uint64_t o1, o2;
               Type *T1, *T2;
               const Value* B1 = resolve_base(CB->getArgOperand(0), o1, T1);
               const Value* B2 = resolve_base(CB->getArgOperand(1), o2, T2);
               if (T1 && T1 == T2 && o1 == o2)
-                ok = range_op("(*" + val(B1) + ")", "(*" + val(B2) + ")", T1, o1, n, st);
+                ok = range_op(deref_as(B1, T1), deref_as(B2, T2), T1, o1, n, st);
             }
-            if (ok && !st.empty() && st.size() <= 128) {
+            if (ok && !st.empty() && st.size() <= 512) {
               std::string r = "(";
               for (size_t i = 0; i < st.size(); i++)
                 r += (i ? ", " : "") + st[i];
@@ -1054,6 +1079,12 @@ struct Tr {
           continue;
         }
         if (auto* SI = dyn_cast<StoreInst>(&I)) {
+          // store through select(c, p, q): two guarded typed stores (CBMC would otherwise byte-update the whole object)
+          if (auto* SEL = dyn_cast<SelectInst>(SI->getPointerOperand())) {
+            code += "  if (" + val(SEL->getCondition()) + ") *" + val(SEL->getTrueValue()) + " = " + val(SI->getValueOperand()) + "; else *" +
+                    val(SEL->getFalseValue()) + " = " + val(SI->getValueOperand()) + ";\n";
+            continue;
+          }
           code += "  *" + val(SI->getPointerOperand()) + " = " + val(SI->getValueOperand()) + ";\n";
           continue;
         }
